@@ -304,3 +304,48 @@ func SortedKeys[V any](m map[string]V) []string {
 	sort.Strings(ks)
 	return ks
 }
+
+// Norm renders a node as source text without comments and without any whitespace, so that
+// pattern recognition is insensitive to formatting and comments.
+func (p *Pkg) Norm(n ast.Node) string {
+	src := p.Src(n)
+	var b strings.Builder
+	inStr := byte(0)
+	for i := 0; i < len(src); i++ {
+		c := src[i]
+		if inStr != 0 {
+			b.WriteByte(c)
+			if c == '\\' && inStr != '`' && i+1 < len(src) {
+				i++
+				b.WriteByte(src[i])
+			} else if c == inStr {
+				inStr = 0
+			}
+			continue
+		}
+		if c == '"' || c == '`' || c == '\'' {
+			inStr = c
+			b.WriteByte(c)
+			continue
+		}
+		if c == '/' && i+1 < len(src) && src[i+1] == '/' {
+			for i < len(src) && src[i] != '\n' {
+				i++
+			}
+			continue
+		}
+		if c == '/' && i+1 < len(src) && src[i+1] == '*' {
+			i += 2
+			for i+1 < len(src) && !(src[i] == '*' && src[i+1] == '/') {
+				i++
+			}
+			i++
+			continue
+		}
+		if c == ' ' || c == '\t' || c == '\n' || c == '\r' {
+			continue
+		}
+		b.WriteByte(c)
+	}
+	return b.String()
+}
